@@ -96,6 +96,10 @@ func nxConfigs(part string, thorough bool) []*nxCfg {
 			{Name: "ondisk-snappy-batch", N: 3, OnDisk: true, EntrySnappy: true, MaxDev: pick(1, 2), Prefix: nxWarm,
 				// the apply worker of replica 1 is held while three writes commit: they reach the state machine in one batch
 				Script: []string{"z1", "W1", "W1", "W2", "Z1", "H1", "R1", "W2", "H1"}, LazyApplies: 1, Drops: 1, Crashes: pick(0, 1), Horizon: 250},
+			{Name: "removed-then-stopped", N: 3, MaxDev: pick(2, 3), Prefix: nxWarm,
+				// replica 3 is removed from the shard and applies its own removal; requests made at it
+				// afterwards (and reads still pending there) end when NodeHost unloads it
+				Script: []string{"W1", "R3", "D1:3", "H1", "W3", "R3", "S3", "W1", "H1"}, Drops: 2, LazyApplies: 1, Reorders: 1, Horizon: 250},
 			{Name: "notify-commit", N: 3, NotifyCommit: true, MaxDev: pick(2, 3), Prefix: nxWarm, Script: []string{"W1", "W2", "R1", "S1"}, Drops: 2, Stops: 1, LazyApplies: 1, Timeouts: 1, Horizon: 200},
 		}
 	case "c17":
